@@ -6,7 +6,7 @@ from ..harness import impl, scn, gen, obs as O, pyeval
 from . import base_scn
 
 pid = 'C08'
-gen_modules = ['tr_state', 'tr_validators', 'tr_has_patcher', 'tr_contracts', 'tr_decorators', 'tr_pin_contracts', 'tr_rest_validators', 'tr_rest_patcher', 'tr_rest_state', 'tr_dispatch', 'tr_rest_dispatch', 'tr_rest_trace', 'tr_rest_contractsconst']
+gen_modules = ['tr_state', 'tr_validators', 'tr_has_patcher', 'tr_contracts', 'tr_decorators', 'tr_pin_contracts', 'tr_rest_validators', 'tr_rest_patcher', 'tr_rest_state', 'tr_dispatch', 'tr_rest_dispatch', 'tr_rest_trace', 'tr_rest_contractsconst', 'tr_rest_records']
 model_targets = ['Sem/Scenario.v']
 hand_modelled = ['coq/Py/Sig.v', 'coq/Sem/Model.v']
 explanation = ('Frame theorems about patch/unpatch and the debug brackets of the generated wrappers; correspondence + monitor over random call '
@@ -162,6 +162,9 @@ def probe():
         def f(x: int) -> int: return x
         @deal.pre(lambda x: x > 0)
         def g(x: int) -> int: raise ValueError("body")
+        import deal.introspection as di
+        check(f"record.validate(5) / (-5) [{tag}]", lambda: [attempt(r.validate, v) for r in di.get_contracts(f) if hasattr(r, "validate") for v in (5, -5)])
+        check(f"init_all(f) [{tag}]", lambda: di.init_all(f))
         check(f"cases(f)() [{tag}]", lambda: deal.cases(f, count=5, check_types=False)())
         check(f"cases(g)() [{tag}]", lambda: deal.cases(g, count=5, check_types=False)())
         check(f"iterate cases(f) [{tag}]", lambda: [c() for c in deal.cases(f, count=5, check_types=False)])
@@ -176,6 +179,10 @@ def probe():
         try:
             check(f"trace(plain) under a tracer [{tag}]", trace, plain, x=1)
             check(f"trace(boom) under a tracer [{tag}]", trace, boom, x=1)
+            def leaves(x): raise SystemExit(3)
+            def interrupted(x): raise KeyboardInterrupt
+            check(f"trace(leaves: SystemExit) under a tracer [{tag}]", trace, leaves, x=1)
+            check(f"trace(interrupted: KeyboardInterrupt) under a tracer [{tag}]", trace, interrupted, x=1)
             from deal._cli._test import fast_iterator
             check(f"fast_iterator, exhausted [{tag}]", lambda: list(fast_iterator([1, 2, 3])))
             def partial():
